@@ -17,6 +17,8 @@ use serde_json::json;
 use vengine::gen::{gauss, small_int_f64};
 use vengine::{Obs, Tier};
 
+use crate::layout::{self, Laid, Layout};
+
 /// centroids: |Δ| <= TOL_CENTROID * (largest magnitude among batch rows and centroids)
 pub const TOL_CENTROID: f64 = 1e-12;
 /// two centroids count as equally near when their reduced distances differ by <= TOL_TIE * (1 + scale^q),
@@ -108,6 +110,9 @@ pub struct KmCase {
     /// the distance function hyper-parameter (`KMeans::params_with(k, rng, dist)`)
     #[serde(default)]
     pub metric: Metric,
+    /// memory layouts of the batches' record matrices (cycled; empty = row-major)
+    #[serde(default)]
+    pub batch_layouts: Vec<Layout>,
 }
 
 #[derive(Debug, Clone, PartialEq)]
@@ -246,8 +251,8 @@ fn model_from_state<D: Met>(st: &State, p: usize) -> Option<KMeans<f64, D>> {
     serde_json::from_value(v).ok()
 }
 
-fn to_array(batch: &[Vec<f64>], p: usize) -> Array2<f64> {
-    Array2::from_shape_fn((batch.len(), p), |(i, j)| batch[i][j])
+fn to_array(batch: &[Vec<f64>], p: usize, layout: Layout) -> Laid<f64> {
+    Laid::new(layout, batch.len(), p, f64::NAN, |i, j| batch[i][j])
 }
 
 fn well_formed(c: &KmCase) -> bool {
@@ -272,7 +277,8 @@ fn run_history<D: Met>(c: &KmCase, obs: &mut Obs, judge: bool) -> Option<Vec<(St
     let mut out = vec![];
     let mut touched = vec![0usize; c.k];
     for (bi, batch) in c.batches.iter().enumerate() {
-        let arr = to_array(batch, c.p);
+        let laid = to_array(batch, c.p, layout::of(&c.batch_layouts, bi));
+        let arr = laid.view();
         // pre-batch state as far as it is observable
         let pre: Option<State> = match (&model, &c.init) {
             (Some(m), _) => Some(observe(m)),
@@ -291,6 +297,7 @@ fn run_history<D: Met>(c: &KmCase, obs: &mut Obs, judge: bool) -> Option<Vec<(St
             None
         };
         let ds = DatasetBase::from(arr);
+        let _ = &laid;
         let prev = model.take();
         let res = obs.call("kmeans-fit_with", || params.fit_with(prev, &ds))?;
         let (converged, m) = match res {
@@ -477,6 +484,7 @@ fn check_with<D: Met>(c: &KmCase, obs: &mut Obs) {
     });
     obs.class_if(c.tolerance > 1.0, "km_tolerance_above_one");
     obs.class_if(c.tolerance < 1.0, "km_tolerance_below_one");
+    layout::classify(None, &c.batch_layouts, c.batches.len(), obs);
     obs.class_if(c.batches.len() == 1, "km_single_batch");
     obs.class_if(c.batches.len() >= 4, "km_four_or_more_batches");
     obs.class_if(c.k == 1, "km_k1");
@@ -517,6 +525,7 @@ struct Meta {
     n_runs: usize,
     tolerance: f64,
     metric: Metric,
+    batch_layouts: Vec<Layout>,
 }
 
 pub fn strategy(_tier: Tier) -> impl Strategy<Value = KmCase> {
@@ -533,8 +542,9 @@ pub fn strategy(_tier: Tier) -> impl Strategy<Value = KmCase> {
         prop_oneof![Just(1usize), Just(3usize)],
         proptest::sample::select(TOLERANCES.to_vec()),
         prop_oneof![2 => Just(Metric::L2), 1 => Just(Metric::L1), 1 => Just(Metric::LInf)],
+        layout::list(),
     )
-        .prop_map(|(p, k, init_kind, data_mode, sizes, seed, n_runs, tolerance, metric)| Meta { p, k, init_kind, data_mode, sizes, seed, n_runs, tolerance, metric });
+        .prop_map(|(p, k, init_kind, data_mode, sizes, seed, n_runs, tolerance, metric, batch_layouts)| Meta { p, k, init_kind, data_mode, sizes, seed, n_runs, tolerance, metric, batch_layouts });
     meta.prop_flat_map(|m| {
         let cell: BoxedStrategy<f64> = match m.data_mode {
             1 => small_int_f64(-3, 3).boxed(),
@@ -597,6 +607,6 @@ pub fn strategy(_tier: Tier) -> impl Strategy<Value = KmCase> {
             2 => Init::PlusPlus,
             _ => Init::Para,
         };
-        KmCase { p: m.p, k, init, seed: m.seed, n_runs: m.n_runs, tolerance: m.tolerance, batches, metric: m.metric }
+        KmCase { p: m.p, k, init, seed: m.seed, n_runs: m.n_runs, tolerance: m.tolerance, batches, metric: m.metric, batch_layouts: m.batch_layouts }
     })
 }
